@@ -164,7 +164,7 @@ Lib  libWrite(FileName fn)	/* = libNew(fn, false, fileWubOpen(fn), 0) as far as 
 {
 	Lib lib = (Lib) malloc(sizeof(*lib));
 	__CPROVER_assume(lib != 0);
-	lib->rdOnly = 0; lib->unitb = 0;
+	lib->rdOnly = 0; lib->isOutput = 1; lib->unitb = 0;	/* as the real libWrite leaves it: job lib.libWrite.marks_output */
 	lib->file = g_lib_file = fileWubOpen(fn);
 	return lib;
 }
